@@ -2307,6 +2307,7 @@ class Attribute(object):
             bit = obj._bits_[attr]
             objects_to_save = cache.objects_to_save
             objects_to_save_needs_undo = False
+            modified = cache.modified
             if wbits is not None and bit:
                 obj._wbits_ = wbits | bit
                 if status != 'modified':
@@ -2326,13 +2327,14 @@ class Attribute(object):
             def undo_func():
                 obj._status_ = status
                 obj._wbits_ = wbits
+                cache.modified = modified
                 if objects_to_save_needs_undo:
                     assert objects_to_save
                     obj2 = objects_to_save.pop()
                     assert obj2 is obj and obj._save_pos_ == len(objects_to_save)
                     obj._save_pos_ = None
 
-                if old_val is NOT_LOADED: obj._vals_.pop(attr)
+                if old_val is NOT_LOADED: obj._vals_.pop(attr, None)
                 else: obj._vals_[attr] = old_val
                 for cache_index, old_key, new_key in undo:
                     if new_key is not None: del cache_index[new_key]
